@@ -32,3 +32,4 @@ axiom("axiom_fix_frame(S1, l1, S2, l2, d, e)",
 axiom("axiom_fix_ran(ok, S, l, p)", "implies(ok, fixp(S, l, p))",
       "A-FIX-RAN (C08): at the end of an iteration of the propagation loop, if constraint p was executed without failure, the store row now equals the box it returned at every position of p, and either "
       "nothing changed (determinism: the same input gives the same output) or p is not the linear equality (idempotence, C14: a second consecutive call changes nothing; proved for 4 propagators, bounded for the others), then p is at a fixpoint on that row.")
+define("noalias(p)", "forall(k1, var_bounds[p, RG_START], var_bounds[p, RG_END], forall(k2, k1 + 1, var_bounds[p, RG_END], props_dom_indices[k1] != props_dom_indices[k2]))")
